@@ -886,6 +886,7 @@ pub fn parent_main(prop: &dyn Property, tier: Tier) -> i32 {
     let mut unstable_failures: Vec<String> = vec![];
     let mut workers_ended_early = 0u64;
     let mut unreproduced_hangs = 0u64;
+    let mut further_hanging_workers = 0u64;
     let mut samples: Vec<J> = vec![];
     let mut shrunk_kinds: BTreeSet<String> = BTreeSet::new();
     for w in ws.iter() {
@@ -899,6 +900,14 @@ pub fn parent_main(prop: &dyn Property, tier: Tier) -> i32 {
                     b[12..(12 + len).min(b.len())].to_vec()
                 })
                 .unwrap_or_default();
+            // once a hang has been confirmed and recorded as a violation, the verdict is settled:
+            // further hanging workers are counted, not confirmed again (each confirmation costs two
+            // watchdog periods, one after the other)
+            if matches!(ab, OneResult::Hang) && violations.iter().any(|(_, f)| f.clause == "terminates") {
+                further_hanging_workers += 1;
+                workers_ended_early += 1;
+                continue;
+            }
             // confirm twice in fresh processes
             let r1 = run_one_isolated(prop, tier, &bytes, &scratch, case_timeout);
             let r2 = run_one_isolated(prop, tier, &bytes, &scratch, case_timeout);
@@ -1084,6 +1093,7 @@ pub fn parent_main(prop: &dyn Property, tier: Tier) -> i32 {
             "unstable_failures_not_reproduced_after_shrinking": unstable_failures,
             "workers_ended_early": workers_ended_early,
             "watchdog_stops_not_reproduced_in_isolation": unreproduced_hangs,
+            "further_hanging_workers_not_reconfirmed": further_hanging_workers,
         },
         "assumptions": prop.assumptions(),
         "wall_s": wall,
